@@ -1,6 +1,5 @@
 //! C05 — serialize / initialize / deserialize round trip with exact size accounting.
 use crate::{
-    exec::{exec, State},
     family::{registry, Registry},
     gen::{default_val, gen_init, gen_val, ref_bytes},
     sx::{show_init, show_val, Shape, Val},
@@ -9,21 +8,20 @@ use hx_common::{hex, Args, Recorder, Rng};
 
 pub const RULE: &str = "a case is non-trivial if it serializes a non-default value, runs an initializer other than DefaultInit, or reaches an error/panic/rejection answer";
 
-pub fn run_case(reg: &Registry, rec: &mut Recorder, lines: &[String]) {
+/// Record one case from the per-line results of the child processes.
+fn record_case(rec: &mut Recorder, lines: &[String], res: &[crate::c04::OpResult]) {
     rec.case(&lines[0]);
-    let mut st = State { cur: None };
-    let mut nontrivial = lines[0].contains(" random") || lines[0].contains(" boundary") || lines[0].contains(" initarg") || lines[0].contains(" discdev");
-    for l in &lines[1..] {
-        let o = exec(reg, &mut st, l);
-        if o.answer.starts_with("err") || o.answer == "panic" {
+    let mut nontrivial = lines[0].contains(" random") || lines[0].contains(" boundary") || lines[0].contains(" initarg") || lines[0].contains(" discdev") || lines[0].contains(" corpus");
+    for (l, (answer, fails)) in lines[1..].iter().zip(res) {
+        if answer.starts_with("err") || answer == "panic" || answer == "crash" {
             nontrivial = true;
         }
         let op = l.split(' ').next().unwrap_or("");
         rec.bump(&format!("op:{op}"));
-        rec.bump(&format!("answer:{}", o.answer.split(' ').next().unwrap_or("")));
-        rec.op(l, &o.answer);
-        for (class, detail) in o.fails {
-            rec.fail(&class, &format!("{l} => {detail}"));
+        rec.bump(&format!("answer:{}", answer.split(' ').next().unwrap_or("")));
+        rec.op(l, answer);
+        for (class, detail) in fails {
+            rec.fail(class, &format!("{l} => {detail}"));
         }
     }
     if nontrivial {
@@ -250,12 +248,20 @@ pub fn main(args: &Args) {
             c
         }
     };
-    for c in &cases {
-        if c.is_empty() || !c[0].starts_with("case") {
-            continue;
+    // Like C04, every op runs in a child process: a mutated library can abort (e.g. a debug assertion
+    // failing while a wrapper unwinds); that must be the answer `crash` of ONE op, not the end of the run.
+    let cases: Vec<Vec<String>> = cases.into_iter().filter(|c| !c.is_empty() && c[0].starts_with("case")).collect();
+    let (batches, results) = crate::c04::run_in_children(&cases, args);
+    let mut crashes = 0u64;
+    for ((_, lines), res) in batches.iter().zip(results) {
+        let starts: Vec<usize> = lines.iter().enumerate().filter(|(_, l)| l.starts_with("case")).map(|(i, _)| i).collect();
+        for (k, &st) in starts.iter().enumerate() {
+            let en = starts.get(k + 1).copied().unwrap_or(lines.len());
+            crashes += res[st + 1..en].iter().filter(|r| r.0 == "crash").count() as u64;
+            record_case(&mut rec, &lines[st..en], &res[st + 1..en]);
         }
-        run_case(&reg, &mut rec, c);
     }
+    rec.extra.insert("child_crashes".into(), serde_json::json!(crashes));
     rec.extra.insert("types".into(), serde_json::json!(reg.iter().map(|(n, t)| format!("{n} {}", t.shape().show())).collect::<Vec<_>>()));
     rec.finish(args);
 }
